@@ -325,6 +325,24 @@ def r14_14(run, model):
                witness="package Main with fn mian() instead of fn main(): `run` reports nothing and emits `func main() { main0() }` with main0 undeclared; build + link fail with `Main package missing main function`")
 
 
+def r14_15(run, model):
+    run.rule("R14.15", "both pipelines see the files of a package in one order: check/build sort the input files, so load_package keeps the "
+                       "sorted directory listing and gives the entry file its place in it instead of putting it first (the order of "
+                       "top-level functions reaches lambda lifting, which is order-sensitive)")
+    PK = "crates/compiler/src/pipeline/packages.rs"
+    f = model.fn("load_package", PK)
+    loops = [l for l in S.find(f.body, "For") if any(True for _ in S.calls(l["iter"], "read_gom_sources"))]
+    if not loops:
+        raise AnalysisIncomplete("load_package: loop over read_gom_sources not found")
+    loop = loops[0]
+    adds = [c for c in S.walk(f.body) if c["k"] == "MethodCall" and c["method"] in ("push", "insert", "extend") and S.is_path(c["recv"], "files")]
+    early = [c for c in adds if (c["sp"][0], c["sp"][1]) < (loop["sp"][0], loop["sp"][1])]
+    run.ob("R14.15", "load_package|entry file takes its place in the sorted listing", not early, site(PK, (early or [loop])[0]["sp"]),
+           f"{len(adds)} insertion(s) into the file list; before the sorted listing is walked: {len(early)}",
+           witness="package Main = main.gom + a.gom, a.gom defines the closure-returning callee: `run main.gom` orders [main.gom, a.gom], "
+                   "build orders [a.gom, main.gom]; the caller is lifted before / after its callee and only one pipeline emits valid Go")
+
+
 def r14_10(run, model):
     run.rule("R14.10", "a program of ordinary size survives the trip through a .core file: Core nests one level per `let`, so the function that "
                        "deserialises a CoreUnit disables serde_json's recursion limit (default 128: about 60 sequential lets)")
@@ -403,6 +421,7 @@ def run(run, model):
     run.try_rule(canonical_link_order, model)
     run.try_rule(r14_12, model)
     run.try_rule(r14_14, model)
+    run.try_rule(r14_15, model)
     run.try_rule(r14_2, model)
     from rules import c16
     run.rule("R14.7", "both pipelines type-check a package against the environments of its own imports only (shared with C16 R16.5): a "
